@@ -8,7 +8,8 @@ EXPLANATION = ("C11: on every receive path the wire-controlled length is validat
                "the allocation it sizes; the SP handshake bytes are checked before a pipe is offered to the socket; every "
                "protocol parser tests the length before it reads or trims header words and drops only the offending pipe; "
                "accept loops re-arm on every non-terminal outcome and transports never report the terminal code NNG_ECLOSED "
-               "for the failure of a single connection; websocket size limits sum over the list the frames are collected in.")
+               "for the failure of a single connection; websocket size limits sum over the list the frames are collected in."
+               " Also: an endpoint stores the caller's accept aio before it calls the helper that serves it (R6); the udp DATA handler gets the datagram size minus the header (R8).")
 
 STREAM_RECV = [("tcptran_pipe_recv_cb", "transport/tcp/tcp.c"), ("ipc_pipe_recv_cb", "transport/ipc/ipc.c"),
                ("sfd_tran_pipe_recv_cb", "transport/socket/sockfd.c")]
